@@ -27,7 +27,7 @@ type c12Replay struct {
 	Entry string `json:"entry"`
 }
 
-var c12Entries = []string{"text", "text-fmt-unequal", "text-noiter", "json", "yaml", "toml", "dry", "walk", "text-badwriter", "json-badwriter", "verify", "mkdir-dry", "mkdir"}
+var c12Entries = []string{"text", "text-fmt-unequal", "text-noiter", "json", "yaml", "toml", "dry", "walk", "text-badwriter", "json-badwriter", "verify", "mkdir-dry", "mkdir", "mkdir-ext", "verify-strict-ext"}
 
 // watchdog: a case that does not return within 30 s (typical: microseconds) is reported as a hang and the shard stops.
 var (
@@ -75,6 +75,15 @@ func c12Call(entry, in string, jail *fsx.Jail) (out string, err error, pan strin
 		})
 	case "mkdir":
 		pan = sut.Guard(func() { err = gtree.MkdirFromMarkdown(strings.NewReader(in), gtree.WithTargetDir(jail.Target)) })
+	case "mkdir-ext":
+		// every childless node named ...a becomes a file, a childless root included
+		pan = sut.Guard(func() {
+			err = gtree.MkdirFromMarkdown(strings.NewReader(in), gtree.WithTargetDir(jail.Target), gtree.WithFileExtensions([]string{"a", "+"}))
+		})
+	case "verify-strict-ext":
+		pan = sut.Guard(func() {
+			err = gtree.VerifyFromMarkdown(strings.NewReader(in), gtree.WithTargetDir(jail.Target), gtree.WithStrictVerify(), gtree.WithFileExtensions([]string{"a"}))
+		})
 	}
 	return
 }
@@ -89,13 +98,13 @@ func c12One(c *rep.Ctx, in string, entries []string, jail *fsx.Jail) {
 		c12Current.Store(e + " " + fmt.Sprintf("%q", in))
 		c12Tick.Add(1)
 		var j *fsx.Jail
-		if e == "mkdir" || e == "mkdir-dry" {
+		if strings.HasPrefix(e, "mkdir") {
 			j = fsx.NewJail("c12")
-		} else if e == "verify" {
+		} else if strings.HasPrefix(e, "verify") {
 			j = jail
 		}
 		out, err, pan := c12Call(e, in, j)
-		if j != nil && e != "verify" {
+		if j != nil && !strings.HasPrefix(e, "verify") {
 			j.Remove()
 		}
 		c.Eval()
@@ -139,7 +148,7 @@ func init() {
 		jail := fsx.NewJail("c12v")
 		defer jail.Remove()
 		before := fsx.Snapshot(jail.Root)
-		noMk := c12Entries[:len(c12Entries)-3]
+		noMk := c12Entries[:len(c12Entries)-5]
 		// Part 1: all byte strings of length <= maxL
 		for L := 0; L <= maxL && !c.Expired(); L++ {
 			enum.Tuples(L, len(c12Bytes), func(t []int) {
@@ -162,6 +171,39 @@ func init() {
 				}
 				ent := noMk
 				if L <= 5 {
+					ent = c12Entries
+				}
+				c12One(c, in, ent, jail)
+			})
+		}
+		// Part 1b: the white space Unicode knows beyond blank, tab, CR and LF (vertical tab, form feed, NEL, no-break
+		// and ideographic space), as tokens next to the structural bytes
+		c12Tokens := []string{"-", " ", "\n", "a", "\v", "\f", "\u00a0", "\u0085", "\u3000"}
+		maxT := 5
+		if c.Thorough() {
+			maxT = 6
+		}
+		c.Bound("max_len_whitespace_tokens", fmt.Sprint(maxT))
+		for L := 1; L <= maxT && !c.Expired(); L++ {
+			enum.Tuples(L, len(c12Tokens), func(t []int) {
+				exotic := false
+				for _, x := range t {
+					if x >= 4 {
+						exotic = true
+					}
+				}
+				if !exotic || !c.Take() || c.Expired() {
+					return
+				}
+				in := ""
+				for _, x := range t {
+					in += c12Tokens[x]
+				}
+				c.StateN(1)
+				c.Trans(L)
+				c.Inc("unicode_whitespace_inputs")
+				ent := noMk
+				if L <= 4 {
 					ent = c12Entries
 				}
 				c12One(c, in, ent, jail)
